@@ -103,8 +103,12 @@ void InitSquid() {
     if (done) return;
     done = true;
     Mem::Init();
-    for (auto &l : Debug::Levels) l = 0;
-    Debug::Levels[0] = 0;
+    // settle the debug channels first: the first critical debugs() would otherwise construct the module,
+    // reset all levels to 1 and hoard "early messages" until an assertion (found by the C42 driver)
+    Debug::BanCacheLogUse();
+    Debug::SettleStderr();
+    Debug::SettleSyslog();
+    for (auto &l : Debug::Levels) l = -1;
     ConfigParser::RecognizeQuotedValues = false;
     ConfigParser::StrictMode = false;
     getCurrentTime();
